@@ -98,6 +98,7 @@ def msgText : Msg → String
   | .cannotSplitEmpty => "cannot_split_empty"
   | .charIndexOutOfRange => "char_index_out_of_range"
   | .unableToParse _ => "unable_to_parse"
+  | .undefinedProperty => "undefined_property"
 
 def siteName : Site → String
   | .elemIndex => "elem_index" | .elemSlice => "elem_slice" | .setIndex => "set_index"
